@@ -140,6 +140,12 @@ def coarse_of(s):
     return '%s(%s)' % (s['what'], ','.join(hs))
 
 
+def tcoarse_of(s):
+    """operation + operand types only (last resort when a reviewed site was rewritten in place)"""
+    tys = [re.sub(r"'\w+ ?|&(mut )?", '', t or '?')[:40] for t in (s.get('op_tys') or [])[:2]]
+    return '%s<%s>' % (s['what'], ','.join(tys))
+
+
 def panic_sites(P, reach):
     """yield dict(fn, kind, what, sig, block, span, expr...) for every panic-capable site"""
     for fid in sorted(reach):
@@ -587,15 +593,16 @@ def run(ctx):
     known, _fixed = load_known()
     entries = {}
     for k, t in T.TABLE.items():
-        entries[k] = dict(kind='table', t=t, coarse=t[3] if len(t) > 3 else None, used=False)
+        entries[k] = dict(kind='table', t=t, coarse=t[3] if len(t) > 3 else None, tcoarse=t[4] if len(t) > 4 else None, used=False)
     for (prop, k), r in known.items():
         if prop == 'C12' and k.startswith('R-PANIC|'):
-            entries[k[len('R-PANIC|'):]] = dict(kind='known', coarse=r.get('coarse'), used=False)
+            entries[k[len('R-PANIC|'):]] = dict(kind='known', coarse=r.get('coarse'), tcoarse=r.get('tcoarse'), used=False)
     seen = {}
     sites = []
     for s in panic_sites(P, reach):
         key = s['key']
         s['coarse'] = coarse_of(s)
+        s['tcoarse'] = tcoarse_of(s) if s['kind'] in ('assert', 'intop') else None
         if s['kind'] == 'ident':
             fmt = [x for x in walk(('tuple', s['ops'])) if isinstance(x, tuple) and x and x[0] == 'const' and x[1].startswith('b"')]
             key = '%s|format_ident(%s)' % (stable_id(s['fn'].id), fmt[0][1] if fmt else '?')
@@ -615,6 +622,15 @@ def run(ctx):
             continue
         for k, en in entries.items():
             if not en['used'] and en['coarse'] and (s['coarse'] == en['coarse'] or (isinstance(en['coarse'], tuple) and s['coarse'] in en['coarse'])):
+                s['entry'] = k
+                s['moved'] = True
+                en['used'] = True
+                break
+    for s in sites:
+        if s['auto'] or s.get('entry') or not s.get('tcoarse'):
+            continue
+        for k, en in entries.items():
+            if not en['used'] and en.get('tcoarse') and en['tcoarse'] == s['tcoarse']:
                 s['entry'] = k
                 s['moved'] = True
                 en['used'] = True
